@@ -8,6 +8,7 @@ import (
 	"sort"
 	"strings"
 
+	"verif/harness/ref"
 	"verif/harness/vc"
 	"verif/harness/vs"
 )
@@ -226,7 +227,12 @@ func c18Run(ctx *vc.Ctx, rep *vc.Report) {
 		w.off = int64(len(b)) // skip the self-test's seeded races
 	}
 	bound := 2
+	boundOverride := 0
 	one := func(family, name string, scn any, mk func() (func(), any)) {
+		bound := bound
+		if boundOverride > 0 {
+			bound = boundOverride
+		}
 		if ctx.Expired() || rep.TooMany() {
 			rep.Truncated = rep.Truncated || ctx.Expired()
 			return
@@ -274,6 +280,21 @@ func c18Run(ctx *vc.Ctx, rep *vc.Report) {
 		}
 		for _, s := range convs {
 			one("conv", s.Name, s, convMake(s))
+		}
+		// every message type the server handles by default, both header versions, on two connections at once with the
+		// server's own handlers: package-level state anywhere in the codec reachable from a connection is then touched
+		// by two writer goroutines that nothing orders (a race report needs the two accesses, not a particular
+		// schedule, so 1 deviation is enough here)
+		for _, v19 := range []bool{false, true} {
+			var a, b []tmsg
+			for i, id := range ref.DefaultIDs {
+				a = append(a, tmsg{ID: id, V2019: v19, Phone: p1, Serial: uint16(i)})
+				b = append(b, tmsg{ID: id, V2019: v19, Phone: "13900139000", Serial: uint16(100 + i), Variant: 1})
+			}
+			s := convScn{Name: fmt.Sprintf("race:conv:plain-all-default-ids:v2019=%v", v19), Plain: true, Conns: [][]tmsg{a, b}}
+			boundOverride = 1
+			one("conv", s.Name, s, convMake(s))
+			boundOverride = 0
 		}
 		for _, s := range c12Scenarios(false) {
 			if s.HoldUntilOnline {
